@@ -701,5 +701,11 @@ class Program:
 
 def stats(prog):
     nb = len(prog.fns)
-    nc = sum(len(f.calls()) for f in prog.fns.values())
+    nc = 0
+    for f in prog.fns.values():
+        raw = f.rec.get("_raw")
+        if raw is not None:
+            nc += raw.count('"t":"call"')
+        else:
+            nc += len(f.calls())
     return {"bodies": nb, "call_sites": nc, "adts": len(prog.adts), "types": len(prog.tys)}
